@@ -1,6 +1,8 @@
 package keeper
 
 import (
+	"sort"
+
 	errorsmod "cosmossdk.io/errors"
 	sdkmath "cosmossdk.io/math"
 	assetstype "github.com/ExocoreNetwork/exocore/x/assets/types"
@@ -98,7 +100,13 @@ func (k Keeper) GetAssetsDecimal(ctx sdk.Context, assets map[string]interface{})
 	}
 	store := prefix.NewStore(ctx.KVStore(k.storeKey), assetstype.KeyPrefixReStakingAssetInfo)
 	decimals = make(map[string]uint32, 0)
+	// iterate in a fixed order: the loop reads the store (gas) and returns at the first unknown asset
+	assetIDs := make([]string, 0, len(assets))
 	for assetID := range assets {
+		assetIDs = append(assetIDs, assetID)
+	}
+	sort.Strings(assetIDs)
+	for _, assetID := range assetIDs {
 		value := store.Get([]byte(assetID))
 		if value == nil {
 			return nil, assetstype.ErrNoClientChainAssetKey
